@@ -69,6 +69,58 @@ def files_of(op, tmp):
     return out
 
 
+def _observe(R, what, t, sink):
+    """Something that only looks at a tree: a writer (export, TIGER-XML,
+    terminals), the export numbering, the analyses, grammar extraction, the
+    transition oracles, the navigation functions, label formatting."""
+    T = R.trees
+    if what in ('export', 'tigerxml', 'terminals'):
+        getattr(R.treeoutput, what)(t, sink)
+    elif what == 'numbering':
+        R.treeoutput.compute_export_numbering(t)
+    elif what == 'analysis':
+        R.treeanalysis.gap_degree(t)
+        for cls in R.treeanalysis.TASKS:
+            inst = cls()
+            inst.run(t)
+    elif what == 'extract':
+        R.grammar.extract(t, {}, {})
+    elif what == 'transitions':
+        for system in ('topdown', 'inorder', 'gap'):
+            try:
+                getattr(R.transitions, system)(t)
+            except Exception:
+                pass
+    elif what == 'navigation':
+        nodes = list(T.preorder(t))
+        list(T.postorder(t))
+        T.levels(t)
+        for n in nodes:
+            T.terminals(n)
+            T.terminal_blocks(n)
+            T.left_sibling(n)
+            T.right_sibling(n)
+            list(T.dominance(n))
+            if T.has_children(n):
+                T.children(n)
+        for a in nodes[:6]:
+            for b in nodes[-6:]:
+                T.lca(a, b)
+    elif what == 'labels':
+        for n in T.preorder(t):
+            for kw in ({}, {'gf': True}, {'gf': True, 'gf_separator': '='},
+                       {'mark_heads_marking': True},
+                       {'boyd_split_marking': True,
+                        'boyd_split_numbering': True}):
+                try:
+                    T.get_label(n, **kw)
+                except KeyError:
+                    pass    # no head / split information on this tree
+            T.parse_label(n.data['label'])
+    else:
+        raise ValueError('unknown observer %r' % what)
+
+
 def execute(R, op, tmp, opened=None):
     """-> output (JSON-able).  `opened`, when given, receives the set of
     declared file paths of this operation."""
@@ -128,7 +180,7 @@ def execute(R, op, tmp, opened=None):
                     bank = list(bank)
                     sink = io.StringIO()
                     for t in bank:
-                        getattr(R.treeoutput, op['prewrite'])(t, sink)
+                        _observe(R, op['prewrite'], t, sink)
                 for t in bank:
                     for name in op['names']:
                         t = getattr(R.transform, name)(t)
